@@ -396,7 +396,14 @@ func c16Run(e *c16Env, c c16Case) (string, string) {
 	e.calls, e.read, e.readErr, e.rawLen = 0, nil, nil, -1
 	var resp *http.Response
 	var err error
-	if strings.HasPrefix(c.Kind, "bomb") || c.Header != "" {
+	if c.Kind == "no-body" {
+		// a request without any body (Content-Length: 0) that still names a content encoding
+		in = nil
+		req, _ := http.NewRequest(http.MethodPost, e.ts.URL, http.NoBody)
+		req.Header.Set("Content-Encoding", c.Alg)
+		e.rawLen = 0
+		resp, err = http.DefaultClient.Do(req)
+	} else if strings.HasPrefix(c.Kind, "bomb") || c.Header != "" {
 		comp := c16Compress(c.Alg, in)
 		req, _ := http.NewRequest(http.MethodPost, e.ts.URL, bytes.NewReader(comp))
 		req.Header.Set("Content-Encoding", c.Alg)
@@ -438,6 +445,11 @@ func c16Run(e *c16Env, c c16Case) (string, string) {
 		if e.calls == 1 && e.readErr == nil && !bytes.Equal(e.read, in) {
 			return "wrong-bytes", desc + ": the handler read wrong bytes without error"
 		}
+	case isEnabled && c.Kind == "no-body":
+		// an empty stream is not a valid document of most codecs: accepted or rejected, but never invented bytes
+		if e.calls == 1 && e.readErr == nil && len(e.read) != 0 {
+			return "wrong-bytes", desc + ": the handler read bytes out of a request without a body"
+		}
 	case !isEnabled:
 		if e.calls != 0 || resp.StatusCode/100 != 4 {
 			return "not-enabled-encoding-not-rejected", fmt.Sprintf("%s: handler calls=%d status=%d", desc, e.calls, resp.StatusCode)
@@ -457,6 +469,17 @@ func c16Run(e *c16Env, c c16Case) (string, string) {
 		}
 	}
 	return "", ""
+}
+
+// the same algorithms once more, as requests without a body (plus a name no codec has)
+func c16NoBodyAlgos(algos []string) []string {
+	var out []string
+	for _, a := range append(append([]string{}, algos...), "nosuchcompression") {
+		if a != "" && a != "none" {
+			out = append(out, a+"|no-body")
+		}
+	}
+	return out
 }
 
 func TestVerif(t *testing.T) {
@@ -677,11 +700,15 @@ func TestVerif(t *testing.T) {
 			ctx.Infra("server: %v", err)
 			continue
 		}
-		for _, alg := range algos {
+		for _, algk := range append(append([]string{}, algos...), c16NoBodyAlgos(algos)...) {
+			alg := strings.TrimSuffix(algk, "|no-body")
 			c := c16Case{Alg: alg, Kind: "literal", Literal: []byte{1, 0xff}, Size: 2, Limit: 4096, Enabled: list, EnabledN: "{" + strings.Join(nm, ",") + "}"}
+			if alg != algk {
+				c.Kind, c.Literal, c.Size = "no-body", nil, 0
+			}
 			ctx.R.Evals++
 			ctx.R.Trans++
-			ctx.Nontrivial(vr.Hash(c.Alg, c.EnabledN))
+			ctx.Nontrivial(vr.Hash(c.Alg, c.Kind, c.EnabledN))
 			sig, what := c16Run(e, c)
 			if sig != "" {
 				ctx.Violate(sig+":"+c.Alg, what, c)
